@@ -69,16 +69,30 @@ Record source := mkSource {
 
 Definition is_empty (s : str) : bool := match s with [] => true | _ => false end.
 
-(* fetchArtifactType on the repaired tree: the manifest's artifactType, for
-   image manifests falling back to the config media type (same rule as
-   registry.Referrers and the distribution spec); indexes carry artifactType too. *)
+(* fetchArtifactType, interpreted from the table tools/gosrc2v re-reads from its source on every
+   run (Generated/GC03.v fetchArtifactType_rules): per media type case a list of steps
+   (guard field, returned field); the first step whose guard field is non-empty -- or whose guard
+   is "" -- gives the result; no case (default) = "".  A field is named by its selector path
+   below the decoded manifest.  On the repaired tree this is: artifactType, for image manifests
+   falling back to the config media type (the rule of registry.Referrers and the distribution
+   spec); indexes carry artifactType too (Proofs: fetch_artifact_type_table). *)
+Definition field_of (s : source) (id : nat) (name : str) : str :=
+  if str_eqb name (b "ArtifactType") then s_mat s id
+  else if str_eqb name (b "Config.MediaType") then s_mcfg s id
+  else [].
+
+Fixpoint eval_rule (s : source) (id : nat) (steps : list (str * str)) : str :=
+  match steps with
+  | [] => []
+  | (g, f) :: rest =>
+    if (is_empty g || negb (is_empty (field_of s id g)))%bool then field_of s id f
+    else eval_rule s id rest
+  end.
+
 Definition fetch_artifact_type (s : source) (id : nat) : str :=
-  if negb (in_cases fetchArtifactType_cases (s_kind s id)) then [] else   (* default: "" *)
-  match s_kind s id with
-  | KArtifact => s_mat s id
-  | KImage => if is_empty (s_mat s id) then s_mcfg s id else s_mat s id
-  | KIndex => s_mat s id
-  | _ => []
+  match find (fun c => kind_eqb (s_kind s id) (kind_of_selector (fst c))) fetchArtifactType_rules with
+  | Some c => eval_rule s id (snd c)
+  | None => []
   end.
 
 (* which media types make FilterArtifactType fetch the manifest *)
